@@ -409,8 +409,12 @@ def conditions(prop, tier):
     out = []
     for idx in (0, 1, 2):
         for rec in (False, True):
-            out.append(dict(name='C14.FileReader.idx%d-rec%d' % (idx, rec), fn='file_reader', fixed=dict(index=idx, recursive=rec), timeout=t,
-                            extra_pre=['ask <= 1 and fi <= 3 and ci <= 2'] if q else [],
+          for ask in ((0, 1) if idx == 0 else (None,)):
+            fx = dict(index=idx, recursive=rec)
+            if ask is not None:
+                fx['ask'] = ask                 # (the shards without an .index file are the expensive ones: split by requested name)
+            out.append(dict(name='C14.FileReader.idx%d-rec%d%s' % (idx, rec, '' if ask is None else '-n%d' % ask), fn='file_reader', fixed=fx, timeout=t,
+                            extra_pre=(['fi <= 3 and ci <= 2'] if ask is not None else ['ask <= 1 and fi <= 3 and ci <= 2']) if q else [],
                             bounds='requested name from %r; the file present / absent / a directory at each of 3 directory levels under a symbolic '
                                    'variant of the name; content from a pool incl. invalid UTF-8; unbounded mtime; ignoreErrors; unreadable file; '
                                    'unrelated files with similar names; .index file %s' % (NAMES, ('absent', 'maps to an existing file', 'maps to a missing file')[idx])))
